@@ -99,6 +99,10 @@ def main():
             text += (f" The decision logic of {GUARDS[pid]} is re-translated from the source into Lean on every run (translate/py2lean_guards.py → LK/Generated/Guards{pid}.lean) "
                      f"and proved to be the model's (LK/Proofs/Guards{pid}.lean); a broken obligation triggers the failing-input search.")
             tech += " + per-run translation of decision logic with proof obligations"
+        if pid == "C01":
+            text += " The CSR row-pointer computation of MatrixRelationshipSet.__init__ is re-translated on every run (translate/py2lean_arrow.py → LK/Generated/RowPtrsC01.lean) and proved equal to the model's rowPtrs (rowPtrsT_eq)."
+        if pid == "C19":
+            text += " The linear transform of StochasticTopNRanker is re-translated on every run (translate/py2lean_imp.py → LK/Generated/ImpC19.lean) and proved equal to the model's linearWeights."
         if pid == "C07":
             text += (" The methods of RMSE and MAE (measure_list, compute_list_data, extract_list_metric, global_aggregate) are re-translated on every run (translate/py2lean_agg.py → LK/Generated/AggC07.lean, "
                      "pandas missing-value semantics in LK/Model/SeriesOps.lean) and proved equal to the model's listData / extract / measureList / globalAgg.")
